@@ -1,6 +1,53 @@
-From Coq Require Import List String.
-From Bq Require Import Expr ExprFacts.
+(* C01 — Compilation preserves the meaning of every resource.
+   Statements only; proofs are [exact <lemma>] of theories/CompileFacts.v.
+
+   compile model:  go ev_subst ...   (the traversal of _compile.py with D = expr, checked simultaneous substitution)
+   denotation:     den rho ...       (THE SAME traversal with D = V: only evaluation of the ORIGINAL local
+                                      expressions in numeric dictionaries; no substitution anywhere)
+   The theorem is for EVERY carrier V and EVERY interpretation I of the operators (so no totalised
+   division or power can make it true for the wrong reason), every tree, every depth. *)
+From Coq Require Import List String QArith.
+From Bq Require Import Expr ExprFacts RepModel Routine Compare Compile Preprocess CompileFacts CompileTop.
+From BqGen Require Import GenTables.
 Import ListNotations.
-Theorem C01_placeholder : forall e, subst [] e = e.
-Proof. exact subst_nil. Qed.
-Print Assumptions C01_placeholder.
+Open Scope string_scope.
+
+(* evaluating the compiled hierarchy at rho = the bottom-up numeric reading at rho *)
+Theorem C01_compile_preserves_meaning :
+  forall (V : Type) (ofQ : Q -> V) (I : op -> list V -> V) (B : bigop -> (V -> V) -> V -> V -> V),
+    (forall k f g lo hi, (forall v, f v = g v) -> B k f lo hi = B k g lo hi) ->
+    forall (rho : string -> V) (fuel : nat) (r : routine) (inputs : list (string * expr)) (t : ctree expr),
+      go ev_subst statusE fv fuel r inputs = Ok t ->
+      den V ofQ I B rho fuel r (valenv V ofQ I B rho inputs) = Ok (valtree V ofQ I B rho t).
+Proof. exact go_natural. Qed.
+Print Assumptions C01_compile_preserves_meaning.
+
+(* from the top: preprocessing, then compilation with no inputs *)
+Theorem C01_compile_routine :
+  forall (V : Type) (ofQ : Q -> V) (I : op -> list V -> V) (B : bigop -> (V -> V) -> V -> V -> V),
+    (forall k f g lo hi, (forall v, f v = g v) -> B k f lo hi = B k g lo hi) ->
+    forall (rho : string -> V) (r : routine) (t : ctree expr),
+      compile_routine r = Ok t ->
+      exists ir, preprocess r = Ok ir /\
+                 den V ofQ I B rho (S (height ir)) ir [] = Ok (valtree V ofQ I B rho t).
+Proof. exact compile_routine_den. Qed.
+Print Assumptions C01_compile_routine.
+
+(* the repaired _process_repeated_resources passes the child's resource symbol, which the
+   parameter map defines; passing the compiled value would substitute into it twice *)
+Theorem C01_repeated_child_by_symbol : gen_rep_argument = "symbol".
+Proof. reflexivity. Qed.
+Print Assumptions C01_repeated_child_by_symbol.
+
+(* sequential substitution (sympy's default for a list of pairs) does NOT have this property *)
+Theorem C01_seq_refuted :
+  exists (s : env) (e : expr) (r : string -> Q),
+    captures s e = false /\
+    ~ (eval idQ stdQ_I BQ0 r (subst_seq s e) == eval idQ stdQ_I BQ0 (env_after idQ stdQ_I BQ0 r s) e).
+Proof. exact subst_seq_refuted. Qed.
+Print Assumptions C01_seq_refuted.
+
+(* non-vacuity: a two-level routine with swapped links compiles, and T = N + 2*M reads M + 2*N *)
+Example C01_nonvacuous :
+  exists t, compile_routine C01_example = Ok t /\ cinput_params t = ["M"; "N"].
+Proof. eexists. split; vm_compute; reflexivity. Qed.
